@@ -30,7 +30,7 @@ func init() {
 				maxTx = 10
 			}
 			p.Scenario = g.Scenario(ScenOpts{MinTx: 2, MaxTx: maxTx, MaxOps: 3, PoisonPct: 25, DelPct: 30, RollbackPct: 15, BadRollbackPct: 40,
-				AsyncPct: 40, SerialPct: 0, MultiPct: 50, PipelinePct: 70}, p.Knobs.Targets)
+				AsyncPct: 40, SerialPct: 15, MultiPct: 50, PipelinePct: 70}, p.Knobs.Targets)
 			p.Sched = g.RandSched()
 			p.Knobs.ConnLate = map[string]bool{}
 			for _, t := range p.Knobs.Targets {
@@ -115,6 +115,29 @@ func (s *Sys) StuckReport() (string, string) {
 // stuckShape classifies where the first stuck transaction sits (used as violation signature shape).
 func stuckShape(r *Recorder, tx *configapi.Transaction) string {
 	ph := TxPhase(tx)
+	// Known cause (known-findings.txt): a transaction that waits for a SERIALIZABLE predecessor on a shared target to be
+	// validated / committed / applied is not re-examined when the predecessor gets there.
+	waitsFor := configapi.TransactionStatus_PENDING
+	switch {
+	case tx.Status.Phases.Apply != nil, tx.Status.Phases.Abort != nil:
+	case tx.Status.Phases.Commit != nil && tx.Status.Phases.Commit.State == configapi.TransactionCommitPhase_COMMITTED:
+		waitsFor = configapi.TransactionStatus_APPLIED
+	case tx.Status.Phases.Commit != nil:
+	case tx.Status.Phases.Validate != nil && tx.Status.Phases.Validate.State == configapi.TransactionValidatePhase_VALIDATED:
+		waitsFor = configapi.TransactionStatus_COMMITTED
+	case tx.Status.Phases.Validate != nil:
+	case tx.Status.Phases.Initialize != nil && tx.Status.Phases.Initialize.State == configapi.TransactionInitializePhase_INITIALIZED:
+		waitsFor = configapi.TransactionStatus_VALIDATED
+	}
+	if waitsFor != configapi.TransactionStatus_PENDING {
+		for _, pid := range tx.Status.Proposals {
+			if p := r.Props[string(pid)]; p != nil && p.Status.PrevIndex != 0 {
+				if prev := r.Txs[uint64(p.Status.PrevIndex)]; prev != nil && prev.Isolation == configapi.TransactionStrategy_SERIALIZABLE && prev.Status.State >= waitsFor {
+					return "behind-serializable-predecessor"
+				}
+			}
+		}
+	}
 	var pp []string
 	for _, pid := range tx.Status.Proposals {
 		if p := r.Props[string(pid)]; p != nil {
